@@ -643,7 +643,7 @@ func (e *engine) doOp(op string) {
 		if f[2] != "0" {
 			opts = append(opts, workflow.WithStartingPoint[Obj, st](st(atoi(f[2]))))
 		}
-		opts = append(opts, workflow.WithInitialValue[Obj, st](&Obj{Seed: atoi(f[3])}))
+		opts = append(opts, workflow.WithInitialValue[Obj, st](newObj(atoi(f[3]))))
 		_, err := e.wfs[1].Trigger(ctx, "f"+f[1], opts...)
 		api(err)
 	case "cb":
@@ -716,7 +716,7 @@ func (e *engine) doOp(op string) {
 		if f[0] == "schedbad" {
 			spec = "not a cron spec"
 		}
-		opts := []workflow.ScheduleOption[Obj, st]{workflow.WithScheduleInitialValue[Obj, st](&Obj{Seed: sc.seed})}
+		opts := []workflow.ScheduleOption[Obj, st]{workflow.WithScheduleInitialValue[Obj, st](newObj(sc.seed))}
 		if sc.filter != 0 {
 			code := 7000000 + fid
 			opts = append(opts, workflow.WithScheduleFilter[Obj, st](func(ctx context.Context) (bool, error) {
